@@ -425,6 +425,27 @@ Theorem C03_generated_request_method_init : forall l,
 Proof. exact gen_mk_request_method_spec. Qed.
 Print Assumptions C03_generated_request_method_init.
 
+(* MultiView.add regenerated from the source (the state of self -- views, media_views, accepts -- threaded through the
+   statements; the list obtained from dict.setdefault is an alias of the dict entry; in-place l[i] = ..; for .. else) is
+   the model's mv_add, so C03_multiview_sorted and the registry invariants speak about the code's merge *)
+Theorem C03_generated_mv_add_is_model : forall m v order phash accept ao,
+  gen_mv_add m v order phash accept ao = mv_add m v order phash accept ao.
+Proof. exact gen_mv_add_is_model. Qed.
+Print Assumptions C03_generated_mv_add_is_model.
+
+(* sort_accept_offers with its nested find_order_index / offer_sort_key, regenerated: the order in which a MultiView
+   keeps its offers is the model's (stable sort by (type weight, params weight)) *)
+Theorem C03_generated_sort_accept_offers_is_model : forall offers order,
+  gen_sort_accept_offers offers order = sort_accept_offers offers order.
+Proof. exact gen_sort_accept_offers_is_model. Qed.
+Print Assumptions C03_generated_sort_accept_offers_is_model.
+
+(* attr_wrapped_view regenerated: the __accept__/__order__/__phash__ attributes exist (carrying the registration's
+   accept, order and phash: checked when translating) exactly when one of the three differs from its default *)
+Theorem C03_generated_attr_wrapped_is_model : forall v, gen_attr_wrapped v = attr_wrapped v.
+Proof. exact gen_attr_wrapped_is_model. Qed.
+Print Assumptions C03_generated_attr_wrapped_is_model.
+
 Theorem C03_generated_predicates_are_model : forall rq p, gen_eval_pred rq p = eval_pred rq p.
 Proof. exact gen_eval_pred_is_model. Qed.
 Print Assumptions C03_generated_predicates_are_model.
